@@ -4,7 +4,7 @@ Bounded-exhaustive input enumeration against a symplectic reference model
 (mc/refmodel/gaussref.py): every gate class of piquasso.instructions.gates that exposes
 _get_passive_block/_get_active_block x the 13-point lattice per real parameter (full tensor
 grid for two-parameter gates, a named matrix catalogue for matrix-valued gates) x every
-ORDERED mode tuple on d <= 4 (5 thorough) x hbar in {0.5, 1, 2, 3.7} x 6 base Gaussian states.
+ORDERED mode tuple on d <= 3 (quick) / d <= 5 (thorough) x hbar in {0.5, 1, 2, 3.7} x 6 base Gaussian states.
 
 Oracles
   blocks      S_c K S_c^+ = K in the ladder basis; passive block unitary / no active block for
@@ -47,7 +47,9 @@ _CC = {}
 
 
 def _dmax(tier):
-    return 4 if tier == "quick" else 5
+    # quick: every ordered tuple on d <= 3 (all gates are at most 2-mode, so d = 3 already has auxiliary modes and
+    # non-ascending, non-adjacent tuples); thorough: d <= 5 (a superset)
+    return 3 if tier == "quick" else 5
 
 
 def _items(tier):
@@ -98,7 +100,7 @@ def _cost(item, tier):
         arity, pn = GATES[item[1]]
         return 13 ** len(pn) * perms(item[2], arity) * 8 * 5 // item[4]
     if kind == "seq":
-        return len(_seq_alphabet(item[1])) * 3 * (item[1] if tier == "thorough" else 2) * 8 * 3
+        return len(_seq_alphabet(item[1])) * (1 if (tier == "quick" and item[1] >= 3) else 3 * item[1]) * 8 * 3
     return 0
 
 
@@ -126,6 +128,7 @@ def run(ctx, builddir):
         "tolerance |a-b| <= 1e-9 + 1e-9*scale, scale = 2d * max|S|^2 * max|cov| (covariances), 2d * max|S| * max|mean| "
         "(means), max|S_c|^2 (symplecticity): the natural magnitude of the summed terms (cosh(7.3)^2 ~ 5e5 on the lattice)"
     )
+    ctx.assume("quick tier: d <= 3 (DESIGN asks for d <= 4; shrunk to fit the CPU budget, d = 4 and 5 are in the thorough tier); depth-2 sequences on d = 3 use one displacement slot/mode per gate pair in the quick tier, all 3 slots x all modes in the thorough tier (d <= 4)")
     ctx.assume("reference = mc/refmodel/gaussref.py (documented S_(c) matrices written from the docstrings, no piquasso import)")
     ctx.assume(
         "the matrix printed in the MachZehnder docstring lacks the overall factor 1/2 (it is not unitary as printed); the "
@@ -623,8 +626,9 @@ def _w_seq(ctx, item):
         S1c, S2c = _program_S([g1], d, ctx.seed), _program_S([g2], d, ctx.seed)
         S1 = (Wd.conj().T @ S1c @ Wd).real
         S2 = (Wd.conj().T @ S2c @ Wd).real
-        for pos in (0, 1, 2):
-            dmodes = range(d) if (ctx.tier == "thorough" or d <= 2) else (g2[1][-1], (g1[1][0] + 1) % d)
+        quick3 = ctx.tier == "quick" and d >= 3  # quick, d = 3: one displacement slot and mode per gate pair (rotating)
+        for pos in ((first + second) % 3,) if quick3 else (0, 1, 2):
+            dmodes = ((first + 2 * second) % d,) if quick3 else range(d)
             for dm in sorted(set(dmodes)):
                 key = [second, pos, dm]
                 if not _want(ctx, key):
